@@ -16,6 +16,8 @@ NonSemantic == {"none", "env_nil_vs_empty", "plugins_nil_vs_empty", "matrix_nil_
 ApplyFieldOp(op, fs) ==       \* fs: the signed field list (a sequence)
     CASE op = "same" -> fs [] op = "reverse" -> Reverse(fs) [] op = "dup" -> Append(fs, fs[1]) [] op = "empty" -> <<>>
       [] op = "drop:repository_url" -> SelectSeq(fs, LAMBDA f : f # "repository_url")
+      [] op = "drop:command" -> SelectSeq(fs, LAMBDA f : f # "command")
+      [] op = "drop:matrix" -> SelectSeq(fs, LAMBDA f : f # "matrix")
       [] op = "add:env::UNRELATED" -> Append(fs, "env::UNRELATED")
       [] op = "add:bogus_field" -> Append(fs, "bogus_field")
       [] OTHER -> LET victim == CHOOSE f \in SeqSet(fs) \ Mandatory : op = "drop:" \o f IN SelectSeq(fs, LAMBDA f : f # victim)
@@ -28,6 +30,10 @@ PresRecOf(cc) ==
      fields |-> ApplyFieldOp(cc.fieldop, SetToSeq(Signed.fields)),
      value |-> CASE cc.valueop = "splice" -> [Signed.value EXCEPT !.payload = Payload(Signed.alg, Values([NormC(cc.orig) EXCEPT !.command = "another step"], Fn(cc.penv)))]
                  [] cc.valueop = "attach" -> [Signed.value EXCEPT !.form = "attached"]      \* the same signature with the ORIGINAL payload spliced into the value
+                 [] cc.valueop = "partial" ->                                                 \* a GENUINE signature of the signer's key over all fields but one mandatory field
+                      LET dropped == IF cc.fieldop = "drop:command" THEN "command" ELSE "matrix"
+                          v == Values(NormC(cc.orig), Fn(cc.penv))
+                      IN [Signed.value EXCEPT !.payload = Payload(Signed.alg, Restrict(v, DOMAIN v \ {dropped}))]
                  [] cc.valueop = "bitflip" -> [Signed.value EXCEPT !.payload = Payload("garbage", <<>>)]
                  [] OTHER -> Signed.value]
 KeySetOf(cc) == CASE cc.keyop = "signer" -> {Key(cc)} [] cc.keyop = "signer_plus" -> {Key(cc), OtherSame(Key(cc)), OtherAlg(Key(cc))}
